@@ -125,9 +125,8 @@ def handle (j : Json) : Except String Json := do
     let O := if fixmod then fixModOracle O0 else O0
     match simplifyB O noEq body, simplifyPreds (O []) noEq preds with
     | some b, some ps =>
-      -- `map_proc`: predicates that became a truthy constant are dropped
-      let ps' := ps.filter (fun p => constCond p != some true)
-      pure (Json.mkObj [("ok", true), ("body", encB b), ("preds", Json.arr (ps'.map encE).toArray)])
+      -- (`map_proc` drops predicates that became `True`, but its result is discarded: `result()` uses `self.ir`)
+      pure (Json.mkObj [("ok", true), ("body", encB b), ("preds", Json.arr (ps.map encE).toArray)])
     | _, _ => pure (Json.mkObj [("ok", false), ("err", "model-none")])
   | "expr" =>
     let sizes ← (← (← j.getObjVal? "sizes").getArr?).toList.mapM decSym
